@@ -53,7 +53,11 @@ type caseT struct {
 	Between  []purgex.Op  `json:"between"`
 	DryRun   bool         `json:"dry_run_first"`
 	Cycle2   *cycleT      `json:"cycle2,omitempty"`
-	Junk     int          `json:"junk_orphans,omitempty"` // unreferenced blobs written by an outside party before the index (> 1024: the blob listing of delete-unused needs several pages)
+	// index-time boundary: after the index was built (time T), unreferenced junk blobs are planted with update
+	// time T+offset (ns); BoundaryReal re-stamps the non-indexed blobs written by the between-uploads to T+BoundaryReal
+	Boundary     []int64 `json:"boundary_offsets_ns,omitempty"`
+	BoundaryReal int64   `json:"boundary_real_ns,omitempty"`
+	Junk         int     `json:"junk_orphans,omitempty"` // unreferenced blobs written by an outside party before the index (> 1024: the blob listing of delete-unused needs several pages)
 }
 
 func drawCase(t *rapid.T) caseT {
@@ -68,6 +72,16 @@ func drawCase(t *rapid.T) caseT {
 	c.Ticker = rapid.IntRange(0, 3).Draw(t, "ticker") == 2
 	c.Between = purgex.DrawOps(t, c.Shape, 0, 3, 1, "nbetween")
 	c.DryRun = rapid.IntRange(0, 4).Draw(t, "dry") == 2
+	offsets := []int64{1, 1000, 999_000, 999_999, 1_000_000, -1, -1000, -1_000_000, 0, 1, -1}
+	if rapid.IntRange(0, 2).Draw(t, "boundary") == 1 {
+		n := rapid.IntRange(1, 5).Draw(t, "nboundary")
+		for i := 0; i < n; i++ {
+			c.Boundary = append(c.Boundary, offsets[rapid.IntRange(0, len(offsets)-1).Draw(t, "offset")])
+		}
+	}
+	if len(c.Between) > 0 && rapid.IntRange(0, 3).Draw(t, "boundary_real") == 2 {
+		c.BoundaryReal = []int64{1, 1000, 500_000}[rapid.IntRange(0, 2).Draw(t, "real_offset")]
+	}
 	switch rapid.IntRange(0, 11).Draw(t, "junk") {
 	case 3:
 		c.Junk = rapid.IntRange(1020, 1100).Draw(t, "njunk")
@@ -90,10 +104,11 @@ type outcomeT struct {
 	skipped           int
 	damaged           bool
 	dropped           bool
+	boundary          int
 }
 
 // purgeCycle runs build-reverse-lookup + (between ops) + delete-unused once and applies the oracle
-func purgeCycle(w *purgex.World, c caseT, chunk uint64, between []purgex.Op, dry bool, phase string, out *outcomeT) error {
+func purgeCycle(w *purgex.World, c caseT, chunk uint64, between []purgex.Op, dry bool, phase string, out *outcomeT, boundary []int64, boundaryReal int64) error {
 	ref, err := w.Referenced()
 	if err != nil {
 		return err
@@ -161,6 +176,24 @@ func purgeCycle(w *purgex.World, c caseT, chunk uint64, between []purgex.Op, dry
 		if err := w.Apply(o, "between"); err != nil {
 			return err
 		}
+	}
+	// ---- blobs right at the index time: the harness cannot steer time.Now() inside the index build, but it can
+	// (as an outside party) set update times relative to the index time the build reported
+	if boundaryReal != 0 {
+		for k, upd := range w.BlobTimes() {
+			if !ref[k] && upd.After(T) {
+				ts := T.Add(time.Duration(boundaryReal))
+				w.Blob().RawSetTimes(k, ts, ts)
+				out.boundary++
+			}
+		}
+	}
+	for i, d := range boundary {
+		key := fmt.Sprintf("b0%014x%0112x", i, uint64(d))
+		w.Blob().RawPut(key, []byte("boundary"))
+		ts := T.Add(time.Duration(d))
+		w.Blob().RawSetTimes(key, ts, ts)
+		out.boundary++
 	}
 	before := w.BlobTimes()
 	if dry {
@@ -268,7 +301,7 @@ func runCase(c caseT, out *outcomeT) error {
 		// looks like a blob key (128 hex digits), spread over the key space
 		w.Blob().RawPut(fmt.Sprintf("%016x%0112x", uint64(i+1)*0x9E3779B97F4A7C15, i), []byte("junk"))
 	}
-	if err := purgeCycle(w, c, c.Chunk, c.Between, c.DryRun, "c1", out); err != nil {
+	if err := purgeCycle(w, c, c.Chunk, c.Between, c.DryRun, "c1", out, c.Boundary, c.BoundaryReal); err != nil {
 		return err
 	}
 	if c.Cycle2 != nil && !out.damaged {
@@ -291,7 +324,7 @@ func runCase(c caseT, out *outcomeT) error {
 			}
 			out.dropped = true
 		}
-		if err := purgeCycle(w, c, c.Cycle2.Chunk, nil, false, "c2", out); err != nil {
+		if err := purgeCycle(w, c, c.Cycle2.Chunk, nil, false, "c2", out, nil, 0); err != nil {
 			return fmt.Errorf("second purge cycle (index rebuilt over the previous one): %v", err)
 		}
 	}
@@ -322,8 +355,8 @@ func cls(n int) string {
 
 func (c caseT) classes(o outcomeT) (string, bool) {
 	nt := o.deleted >= 1 && o.keyChunks >= 2
-	sig := fmt.Sprintf("ctx=%d chunks=%s deleted=%s newer=%s shared=%v between=%v cycle2=%v/%s/drop=%v ticker=%v dry=%v junk=%s",
-		len(c.Shape.Repos), cls(o.keyChunks), cls(o.deleted), cls(o.newer), o.sharedSurvivor, len(c.Between) > 0, c.Cycle2 != nil, cls(o.cycle2Deleted), o.dropped, c.Ticker, c.DryRun, map[bool]string{true: "pages", false: "no"}[c.Junk > 1000])
+	sig := fmt.Sprintf("ctx=%d chunks=%s deleted=%s newer=%s shared=%v between=%v cycle2=%v/%s/drop=%v ticker=%v dry=%v junk=%s boundary=%v",
+		len(c.Shape.Repos), cls(o.keyChunks), cls(o.deleted), cls(o.newer), o.sharedSurvivor, len(c.Between) > 0, c.Cycle2 != nil, cls(o.cycle2Deleted), o.dropped, c.Ticker, c.DryRun, map[bool]string{true: "pages", false: "no"}[c.Junk > 1000], o.boundary > 0)
 	return sig, nt
 }
 
@@ -341,7 +374,7 @@ func check(t interface {
 
 func describe(c caseT) string {
 	var sb strings.Builder
-	fmt.Fprintf(&sb, "repos=%v leaves=%v chunk=%d parallel=%d ticker=%v dry=%v junk=%d\n  pre:", c.Shape.Repos, c.Shape.Leaves, c.Chunk, c.Parallel, c.Ticker, c.DryRun, c.Junk)
+	fmt.Fprintf(&sb, "repos=%v leaves=%v chunk=%d parallel=%d ticker=%v dry=%v junk=%d boundary=%v real=%d\n  pre:", c.Shape.Repos, c.Shape.Leaves, c.Chunk, c.Parallel, c.Ticker, c.DryRun, c.Junk, c.Boundary, c.BoundaryReal)
 	for _, o := range c.Pre {
 		sb.WriteString(" " + o.String())
 	}
@@ -388,6 +421,9 @@ func record(c caseT, o outcomeT) {
 	}
 	if c.Junk > 1000 {
 		stats.Count("purge_blob_listing_paginated", 1)
+	}
+	if o.boundary > 0 {
+		stats.Count("purge_blobs_at_index_time_boundary", 1)
 	}
 	if o.damaged {
 		stats.Count("purge_between_upload_lost_reused_orphan", 1)
